@@ -248,7 +248,7 @@ def c18(tier, seed):
              "curve25519-dalek (clamp(SHA-512(seed)[..32]).B), PEM presentation variants, concatenated PEM public keys; totality: every single-byte substitution and "
              "every truncation of the four DER forms, PEM mutations, length/tag edits and random bytes through the five public parsers under a panic trap and the "
              "counting allocator; distinct = distinct input; all non-trivial",
-        musthit=["held:pair", "held:ed25519", "held:pem-many", "hostile:refused", "pem_variant0:accepted"],
+        musthit=["held:pair", "held:ed25519", "held:pem-many", "hostile:refused", "pem_variant0:accepted", "pair_patterned_key_bytes"],
     )
 
 
